@@ -79,7 +79,7 @@ class Checker:
         m, f, l = self._site(where, node)
         self.obs.append(Ob(rule, HOLDS, m, f, l, what, "", facts, evaluations))
 
-    def violation(self, rule: str, where, node, what: str, construct: str, evaluations: int = 1, positive: bool = False, **facts: Any) -> None:
+    def violation(self, rule: str, where, node, what: str, construct: str, evaluations: int = 1, positive: bool = False, also: tuple = (), **facts: Any) -> None:
         """``positive``: the verdict names a construct that *is there* (a wrong operand, a forbidden call ...), as opposed to one that
         rests on not finding the expected construct.  The latter kind is withheld for functions that no longer resemble the audited
         ones (pyoakverif/shape.py): not recognising a rewritten function is not evidence against it."""
@@ -87,8 +87,19 @@ class Checker:
         if not positive and not os.environ.get("PYOAK_VERIF_NO_SHAPE_GATE"):
             from . import shape
             fn_ = self._func_of(where)
+            gone = False
+            sim = delta = None
+            # (`also`: further functions whose reading the verdict rests on — a comparison of two siblings reads both)
+            for cand in [fn_] + [self._func_of(a) for a in also]:
+                if cand is None:
+                    continue
+                g_, s_, d_ = shape.rewritten(cand.key, cand.raw or cand.node)
+                if cand is fn_:
+                    sim = s_
+                if g_:
+                    gone, fn_, sim, delta = True, cand, s_, d_
+                    break
             if fn_ is not None:
-                gone, sim, delta = shape.rewritten(fn_.key, fn_.raw or fn_.node)
                 if gone:
                     # decided in finish(): a verdict that matches a recorded known finding (a defect confirmed concretely) is kept
                     facts = dict(facts, shape_similarity=sim, _withhold=(
